@@ -8,6 +8,28 @@ STORAGE = {'handle_open', 'handle_create', 'handle_read', 'handle_write', 'handl
            'parity_create', 'parity_open', 'parity_read', 'parity_write', 'parity_sync', 'parity_close', 'parity_chsize', 'parity_truncate'}
 
 
+def writer_dispatch(f, L):
+    """(state constant, entry block) of the dispatch on the state reported by the parity writers inside the stripe loop: the cases
+    of a switch, or the equal sides of an if / else-if chain in the part of the loop entered when an entry of writer_error[] is set"""
+    entries = []
+    for b in L.body:
+        t = f.term(b)
+        if t.op == 'switch':
+            entries += [(cv, cb) for cv, cb in t.cases]
+    if entries:
+        return entries
+    tests = [f.term(b) for b in L.body if f.term(b).op == 'br' and len(f.term(b).ops) == 3 and 'writer_error[' in f.xexpr(f.term(b).ops[0])]
+    for b in L.body:
+        t2 = f.term(b)
+        ci2 = f.inst_of(t2.ops[0]) if t2.op == 'br' and len(t2.ops) == 3 else None
+        if ci2 is None or ci2.op != 'icmp' or ci2.pred not in ('eq', 'ne') or f.const_of(ci2.ops[1]) is None or f.const_of(ci2.ops[1]) >= 0:
+            continue
+        if not any(f.bdominates(tt.ops[2][1], b) or f.bdominates(tt.ops[1][1], b) for tt in tests):
+            continue
+        entries.append((f.const_of(ci2.ops[1]), t2.ops[2][1] if ci2.pred == 'eq' else t2.ops[1][1]))
+    return entries
+
+
 def task_state_stores(f):
     """constants stored into task->state by a worker callback"""
     res = []
@@ -83,11 +105,9 @@ def run(ctx, rep):
                 g = P.fn(cb)
                 rep.analysed(g)
                 produced |= {k for _, k in task_state_stores(g) if k is not None and k < 0}
-            sw = [f.term(b) for b in range(len(f.blocks)) if f.term(b).op == 'switch' and b in L.body]
-            handled = set()
-            for t in sw:
-                handled |= {cv for cv, _ in t.cases}
-            rep.check(produced <= handled and bool(produced), 'R-C08-1', '%s: consumer of writer errors' % fname, sw[0].loc() if sw else f.file, 'writer produces %s, switch handles %s' % (sorted(produced), sorted(handled)), function=fname, construct='writer states')
+            wd = writer_dispatch(f, L)
+            handled = {cv for cv, _ in wd}
+            rep.check(produced <= handled and bool(produced), 'R-C08-1', '%s: consumer of writer errors' % fname, f.blocks[wd[0][1]][0].loc() if wd else f.file, 'writer produces %s, switch handles %s' % (sorted(produced), sorted(handled)), function=fname, construct='writer states')
         # R-C08-1b callbacks
         for kind in ('data', 'parity', 'writer'):
             for cb in sorted(cbs[kind]):
@@ -133,11 +153,12 @@ def run(ctx, rep):
                     continue
                 esc = L.escapes_without(inc, stops, targets)
                 # which consumer region the increment belongs to (for the finding key)
-                sws = [f.term(b) for b in range(len(f.blocks)) if f.term(b).op == 'switch' and f.bdominates(b, inc.block) and b in L.body]
+                wd2 = [(cv, cb) for cv, cb in writer_dispatch(f, L) if f.bdominates(cb, inc.block)] if cbs['writer'] else []
+                sws = wd2
                 where = 'writer-error switch' if sws else 'reader side'
                 if sws:
                     # only states the installed writer callback can produce matter
-                    case = [cv for cv, cb in sws[0].cases if f.bdominates(cb, inc.block)]
+                    case = [cv for cv, cb in wd2]
                     prod = set()
                     for cb in cbs['writer']:
                         prod |= {k for _, k in task_state_stores(P.fn(cb))}
@@ -181,10 +202,10 @@ def run(ctx, rep):
             prodw = set()
             for cb in cbs['writer']:
                 prodw |= {k for _, k in task_state_stores(P.fn(cb)) if k is not None and k < 0}
-            sws = [f.term(b) for b in range(len(f.blocks)) if f.term(b).op == 'switch' and b in L.body]
             marks = [c_ for c_ in f.calls('info_set_bad')]
-            for t_ in sws:
-                for cv, cb in t_.cases:
+            entries = writer_dispatch(f, L)
+            for _one in [0]:
+                for cv, cb in entries:
                     if cv not in prodw:
                         continue
                     first = f.blocks[cb][0]
